@@ -255,6 +255,36 @@ theorem cont_eq (b : VBody) (k : Cont b.σ) (F : Futs) (n : Nat) (r : KRes)
   | relay co => exact relay_eq b co F n r
   | dead co => exact hk.elim
 
+/-- **`CoroStart.throw(exc)`** (default `tries = 1`) over the kernel runtime: the exception is thrown into
+    the coroutine; if it answers with another yield the blocking flag of the yielded future is cleared
+    (fix 7bda94b: the future is abandoned, not passed to a Task) and RuntimeError("coroutine ignored …")
+    is raised; `StopIteration` is the return value; anything else propagates. -/
+theorem throw_eq (b : VBody) (w : W (Co b.σ) Futs) (e : Exc) :
+    Gen.CoroStart.throw (rt b) w e 1 =
+      (match Co.resume b w.c (.throw e) w.F with
+       | (c', .yield y, F') =>
+         .err rtIgnored { w with c := c', F := (match y with
+           | .fut f => setFlag F' f false
+           | _ => F') }
+       | (c', .ret v, F') => .ok v { w with c := c', F := F' }
+       | (c', .raise (.stopIter v), F') => .ok v { w with c := c', F := F' }
+       | (c', .raise x, F') => .err x { w with c := c', F := F' }) := by
+  rcases hx : Co.resume b w.c (.throw e) w.F with ⟨c', o, F'⟩
+  have hs : (rt b).throw w.c e w.F = (c', o, F') := hx
+  simp only [Gen.CoroStart.throw, Gen.CoroStart.throwLoop, hs]
+  cases o with
+  | yield y =>
+    cases y with
+    | bare => simp [yFlag]
+    | tok n => simp [yFlag]
+    | fut f =>
+      by_cases hb : (F' f).blocking = true
+      · simp [yFlag, ySetFlag, hb]
+      · have hb' : (F' f).blocking = false := by simpa using hb
+        simp [yFlag, hb', setFlag_self F' f hb']
+  | ret v => simp
+  | raise x => cases x <;> simp
+
 /-! ### the API variants and the `cancelling()` block -/
 
 def outW {κ Φ : Type} : GOut κ Φ → W κ Φ
@@ -266,7 +296,10 @@ def outW {κ Φ : Type} : GOut κ Φ → W κ Φ
 
 /-- `eager_ctx(coro)` is `coro_eager(coro)` (wrapped in `cancelling`), `func_eager(f)(*a)` is
     `coro_eager(f(*a))`, `eager(x)` dispatches on the kind of `x` (0 = coroutine, 1 = function) -/
-theorem eagerCtx_eq {κ Φ : Type} (R : Rt κ Φ) (w : W κ Φ) (tf : Bool) : eagerCtx R w tf = coroEager R w tf := by
+theorem eagerCtx_eq {κ Φ : Type} (R : Rt κ Φ) (w : W κ Φ) (tf : Bool) :
+    eagerCtx R w tf = (match coroEager R w tf with
+      | .ok o w' => .ok (.cancelling o) w'
+      | .err e w' => .err e w') := by
   unfold eagerCtx; cases coroEager R w tf <;> rfl
 
 theorem funcEager_eq {κ Φ : Type} (R : Rt κ Φ) (w : W κ Φ) (tf : Bool) :
